@@ -19,7 +19,8 @@ EXPLANATION = (
     "little-endian word) equals the firehose packing and each TraceIdentifier field reads the layout field of its meaning. "
     "R5: a class applied to a flags byte through a registry must be able to represent zero and combinations (a plain Enum "
     "whose members are >= 3 distinct single bits is a bit set). R6: raw-key -> (field, string-index or raw) agrees with the "
-    "table confirmed on the reviewed tree (new keys are reported, not judged)."
+    "table confirmed on the reviewed tree (new keys are reported, not judged). R10: the 'ud' timeval becomes the aware UTC "
+    "datetime epoch + sec + usec/10**6 (linear form of the conversion, or zero-padded decimal text)."
 )
 
 MOD = "pykdebugparser.os_log_event"
@@ -51,6 +52,116 @@ FIREHOSE_BITS = {
     "namespace": (0, 7), "type_": (8, 15), "has_current_aid": (16, 16), "pc_style": (17, 19),
     "has_unique_pid": (20, 20), "has_large_offset": (21, 21), "flags": (24, 31), "code": (32, 63),
 }
+
+
+_TD_UNITS = {"days": 86400.0, "seconds": 1.0, "microseconds": 1e-6, "milliseconds": 1e-3, "minutes": 60.0, "hours": 3600.0,
+             "weeks": 604800.0}
+_TD_ORDER = ("days", "seconds", "microseconds", "milliseconds", "minutes", "hours", "weeks")
+_UTC = T("global", ("datetime.timezone.utc",))
+
+
+class _NotLinear(Exception):
+    pass
+
+
+def _linear(t: T, sec: T, usec: T):
+    """(a, b, c) with t == a*sec + b*usec + c for arithmetic over the two timeval members and constants."""
+    if t == sec:
+        return (1.0, 0.0, 0.0)
+    if t == usec:
+        return (0.0, 1.0, 0.0)
+    if t.op == "const" and isinstance(t.a[0], (int, float)) and not isinstance(t.a[0], bool):
+        return (0.0, 0.0, float(t.a[0]))
+    if t.op == "call" and t.a[0].op == "builtin" and t.a[0].a[0] in ("float", "int") and len(t.a[1]) == 1 and not t.a[2] \
+            and t.a[1][0] in (sec, usec):
+        return _linear(t.a[1][0], sec, usec)
+    if t.op == "bin" and t.a[0] in ("+", "-"):
+        l, r = _linear(t.a[1], sec, usec), _linear(t.a[2], sec, usec)
+        sg = 1.0 if t.a[0] == "+" else -1.0
+        return tuple(x + sg * y for x, y in zip(l, r))
+    if t.op == "bin" and t.a[0] == "*":
+        l, r = _linear(t.a[1], sec, usec), _linear(t.a[2], sec, usec)
+        for x, y in ((l, r), (r, l)):
+            if x[0] == 0.0 and x[1] == 0.0:
+                return tuple(x[2] * v for v in y)
+        raise _NotLinear(sym.pretty(t))
+    if t.op == "bin" and t.a[0] == "/":
+        l, r = _linear(t.a[1], sec, usec), _linear(t.a[2], sec, usec)
+        if r[0] == 0.0 and r[1] == 0.0 and r[2] != 0.0:
+            return tuple(v / r[2] for v in l)
+    raise _NotLinear(sym.pretty(t))
+
+
+def _instant(t: T, sec: T, usec: T):
+    """('lin', (a, b, c), tz) for a datetime expression that is epoch + a*sec + b*usec + c seconds;
+    ('text', problem or None, tz) for fromtimestamp(float(<decimal text>))."""
+    fts = T("global", ("datetime.datetime.fromtimestamp",))
+    if t.op == "call" and t.a[0] == fts and 1 <= len(t.a[1]) <= 2:
+        kw = dict(t.a[2])
+        tz = t.a[1][1] if len(t.a[1]) == 2 else kw.get("tz")
+        x = t.a[1][0]
+        if x.op == "call" and x.a[0] == T("builtin", ("float",)) and len(x.a[1]) == 1 and x.a[1][0].op == "fstr":
+            parts = x.a[1][0].a[0]
+            if len(parts) == 3 and parts[0][0] == "val" and parts[0][1] == sec and parts[1] == ("lit", ".") \
+                    and parts[2][0] == "val" and parts[2][1] == usec:
+                spec = parts[2][3].a[0] if parts[2][3] is not None and parts[2][3].op == "const" else ""
+                padded = spec in ("06", "06d", "0>6", "0>6d")
+                return ("text", None if padded else
+                        f"the microseconds are written after the decimal point without zero padding to six digits "
+                        f"(format spec {spec!r}): 4500 us reads as .4500 s = 450000 us", tz)
+            raise _NotLinear(sym.pretty(x))
+        return ("lin", _linear(x, sec, usec), tz)
+    td = T("global", ("datetime.timedelta",))
+    if t.op == "bin" and t.a[0] == "+":
+        for base, delta in ((t.a[1], t.a[2]), (t.a[2], t.a[1])):
+            if delta.op == "call" and delta.a[0] == td:
+                kind, lin, tz = _instant(base, sec, usec)
+                if kind != "lin":
+                    raise _NotLinear(sym.pretty(t))
+                terms = list(zip(_TD_ORDER, delta.a[1])) + list(delta.a[2])
+                for unit, val in terms:
+                    if unit not in _TD_UNITS:
+                        raise _NotLinear(sym.pretty(delta))
+                    lin = tuple(x + _TD_UNITS[unit] * y for x, y in zip(lin, _linear(val, sec, usec)))
+                return ("lin", lin, tz)
+    if t.op == "call" and t.a[0].op == "attr" and t.a[0].a[1] == "replace" and not t.a[1] and \
+            [k_ for k_, _ in t.a[2]] == ["microsecond"]:
+        kind, lin, tz = _instant(t.a[0].a[0], sec, usec)
+        if kind == "lin" and lin[1] == 0.0:
+            m = _linear(t.a[2][0][1], sec, usec)
+            return ("lin", tuple(x + 1e-6 * y for x, y in zip(lin, m)), tz)
+    dt = T("global", ("datetime.datetime",))
+    if t.op == "call" and t.a[0] == dt and [a_ for a_ in t.a[1]] == [const(1970), const(1), const(1)]:
+        return ("lin", (0.0, 0.0, 0.0), dict(t.a[2]).get("tzinfo"))
+    raise _NotLinear(sym.pretty(t))
+
+
+def check_unix_date(run: Run, v: T, event: T, line: int) -> None:
+    ud = T("call", (T("attr", (event, "pop")), (const("ud"),), ()))
+    sec, usec = T("sub", (ud, const("sec"))), T("sub", (ud, const("usec")))
+    scope = "OsLogEvent.from_raw_log_event"
+    try:
+        kind, what, tz = _instant(v, sec, usec)
+    except _NotLinear as ex:
+        raise AnalysisError(f"C16/R10: the conversion of the 'ud' timeval is outside the recognised forms: {str(ex)[:120]}")
+    if kind == "text":
+        run.ob("R10", MOD, scope, "unix_date = epoch + sec + usec/10**6", what is None, what or "", line=line,
+               witness=None if what is None else "{'sec': 1634714583, 'usec': 4500}")
+    else:
+        a, b, c = what
+        ok = abs(a - 1.0) < 1e-12 and abs(b - 1e-6) < 1e-15 and abs(c) < 1e-12
+        run.ob("R10", MOD, scope, "unix_date = epoch + sec + usec/10**6", ok,
+               "" if ok else f"unix_date is the instant {a:g}*sec + {b:g}*usec + {c:g} seconds after the epoch, not sec + usec/10**6",
+               facts={"coefficients": [a, b, c]}, line=line,
+               witness=None if ok else "{'sec': 1634714583, 'usec': 810447}")
+    if tz is None:
+        run.ob("R10", MOD, scope, "unix_date is an aware UTC datetime", False,
+               "the timestamp is converted without a time zone: fromtimestamp() then yields the host's local wall clock, not "
+               "the UTC instant", line=line)
+    elif tz in (_UTC, T("global", ("datetime.UTC",))):
+        run.ob("R10", MOD, scope, "unix_date is an aware UTC datetime", True, nontrivial=False)
+    else:
+        raise AnalysisError(f"C16/R10: time zone argument {sym.pretty(tz)[:60]} is not datetime.timezone.utc: not judged")
 
 
 def unfold_dict(t: T, _memo=None):
@@ -225,6 +336,10 @@ def check(repo: Repo, run: Run) -> None:
                            line=fn.lineno)
             else:
                 run.note(f"raw key {r!r} -> {fname} is not in the reviewed key table (new key: not judged)")
+    # R10: "the timestamp as the corresponding UTC instant"
+    for k, v, cond in stores:
+        if k.a[0] == "unix_date":
+            check_unix_date(run, v, event, fn.lineno)
     # R2 mandatory fields stored unconditionally
     uncond = {k.a[0] for k, v, cond in stores if not cond}
     for fname, dflt in ci.fields:
